@@ -151,3 +151,58 @@ func withTrailers(h history, rng *rand.Rand) history {
 	}
 	return out
 }
+
+// manyHistory draws a history for the "many numbers" family: four model
+// objects, the first revision a table or a stream that defines them (the
+// first may be retired instead, so that a hybrid update can hide it), one to
+// three updates that are cross-reference streams or hybrid sections.
+func manyHistory(rng *rand.Rand) history {
+	const nObj = 4
+	for {
+		st := make([]objState, nObj)
+		ops := []string{"def", "def", "def", "def"}
+		if rng.Intn(3) == 0 {
+			ops[0] = "freer"
+		}
+		for i := range ops {
+			st[i] = applyOp(st[i], ops[i])
+		}
+		h := history{{K: []string{"table", "stream"}[rng.Intn(2)], O: ops, T: randomTrailer(rng)}}
+		nrev := 2 + rng.Intn(3)
+		ok := true
+		for k := 2; k <= nrev && ok; k++ {
+			ok = false
+			for try := 0; try < 20 && !ok; try++ {
+				kind := []string{"stream", "stream", "hybrid"}[rng.Intn(3)]
+				o := make([]string, nObj)
+				hidden, changed, good := false, false, true
+				for i := range o {
+					var cand []string
+					for _, op := range opNames {
+						if opOK(st[i], kind, op, k) {
+							cand = append(cand, op)
+						}
+					}
+					if len(cand) == 0 {
+						good = false
+						break
+					}
+					o[i] = cand[rng.Intn(len(cand))]
+					hidden = hidden || o[i] == "hdef" || o[i] == "hdefc"
+					changed = changed || o[i] != "keep"
+				}
+				if !good || (kind == "hybrid" && !hidden) || !changed {
+					continue
+				}
+				for i := range o {
+					st[i] = applyOp(st[i], o[i])
+				}
+				h = append(h, rev{K: kind, O: o, T: randomTrailer(rng)})
+				ok = true
+			}
+		}
+		if ok {
+			return h
+		}
+	}
+}
